@@ -11,7 +11,7 @@ use crate::world::*;
 use alloy_primitives::U512;
 use revm::optimism::{L1BlockInfo, BASE_FEE_RECIPIENT, L1_BLOCK_CONTRACT, L1_FEE_RECIPIENT};
 use revm::primitives::{address, Address, Bytes, ExecutionResult, SpecId, B256, U256};
-use revm::{Evm, Handler};
+use revm::{Database, Evm, Handler};
 use serde::{Deserialize, Serialize};
 use serde_json::json;
 
@@ -393,6 +393,11 @@ fn build_op_sys(w: &World, reward: bool) -> Sys {
     let mut evm = Evm::builder().with_db(db).with_external_context(make_insp(InspKind::None)).with_handler(Handler::optimism_with_spec(spec, reward)).build();
     apply_block(&mut evm.context.evm.env, &w.block, spec);
     evm.context.evm.env.cfg.chain_id = 1;
+    // Before Ecotone revm reads the L1 block contract's storage without loading the account
+    // first; it relies (documented in `L1BlockInfo::try_fetch`) on the block's first
+    // transaction, the L1 attributes deposit, having loaded it. The histories here start
+    // anywhere in a block, so the account is loaded the way that deposit would have.
+    let _ = evm.context.evm.db.basic(L1_BLOCK_CONTRACT);
     Sys { evm: Some(evm), bottom, cfg: w.cfg.clone() }
 }
 
